@@ -127,6 +127,31 @@ def alive(st):
     return st in ("r", "k")
 
 
+def step_begin(s):
+    """virtual time at which the code of step s started to run: a wake jumps to the deadline of the earliest timer"""
+    if s.kind() == "wake" and s.before.sleepers:
+        return s.before.t + max(0, min(s.before.sleepers))
+    return s.before.t
+
+
+def spawn_times(sc, V):
+    """pid -> time its spawn *started* (Process.started): spawns take the time their behaviour says (`spawn_ms`);
+    behaviours are assigned by attempt number, exec failures count as attempts"""
+    bh = sc.get("behav") or [{}]
+    att = 0
+    out = {}
+    for s in V:
+        cur = step_begin(s)
+        for l in s.lines:
+            if l[0] == "execfail":
+                att += 1
+            elif l[0] == "spawn":
+                out[l[1]] = cur
+                cur += bh[att % len(bh)].get("spawn_ms", 0)
+                att += 1
+    return out
+
+
 def res_name(n):
     return n.lower().replace(" ", "_")
 
@@ -179,7 +204,9 @@ def c05(sc, V):
                       "msg": "daemon spins for ever inside one step (op %r)" % (s.op,)})
             break
         if s.slept > 40:
-            f.append({"sig": "event-loop-stalled", "step": s.n, "msg": "event loop blocked for %d ms in one step" % s.slept})
+            od = any(c.get("on_demand") for c in sc["watchers"]) and any(x.kind() == "sockev" and x.op[1] for x in V[:s.n])
+            f.append({"sig": "event-loop-blocked@on-demand-start-overlap" if od else "event-loop-stalled", "step": s.n,
+                      "msg": "event loop blocked for %d ms in one step" % s.slept})
         if s.kind() == "req" and s.cmd() in ("status", "list", "numprocesses", "numwatchers", "options", "globaloptions") \
                 and not s.before.blocked and not _ctl_closed_before(V, s.n) and s.op[1].get("msg_type") != "cast":
             if len(s.of("rep")) != 1:
@@ -433,7 +460,7 @@ def c03(sc, V):
             if l[0] == "spawn":
                 owner[l[1]] = l[2]
         now = s.snap.t if not s.snap.blocked else s.before.t
-        t_start = now - s.slept            # clock when the step's code started running (after a wake's jump)
+        t_start = step_begin(s)            # clock when the step's code started running (after a wake's jump)
         for i, l in enumerate(s.lines):
             if l[0] != "sig" or l[4] in ("x",):
                 continue
@@ -833,6 +860,7 @@ def _listed(snap, pid):
 
 def c19(sc, V):
     f = []
+    started_at = spawn_times(sc, V)
     for s in V:
         if not (s.kind() == "start" or (s.cmd() in ("start", "restart") and "name" not in s.props() and
                                        any(r[3] == "ok" for r in s.of("rep")))):
@@ -863,7 +891,7 @@ def c19(sc, V):
                 break
             for l in x.lines:
                 if l[0] == "spawn":
-                    seq.append((l[2], x.snap.t if x.kind() != "wake" else x.snap.t, l[1]))
+                    seq.append((l[2], started_at.get(l[1], x.snap.t), l[1]))
                 if l[0] == "execfail":
                     clean = False
             if x.snap.slot is None:
